@@ -151,7 +151,11 @@ class CSSCharsetRule(cssrule.CSSRule):
         else:
             try:
                 codecs.lookup(encoding)
-            except LookupError:
+                # it must also be able to encode the sheet the way the
+                # serializer does: "hex", "rot13" (not text encodings),
+                # "undefined", "idna" (no error handler) or "css" are not
+                ('@charset "%s";' % encoding).encode(encoding, 'escapecss')
+            except (LookupError, ValueError):
                 self._log.error('CSSCharsetRule: Unknown (Python) encoding %r.'
                                 % encoding)
             else:
